@@ -46,9 +46,11 @@ Lemma known_failing_refuted : forall a, In a effects -> memN (acc_id a) known_fa
         /\ strip containers (at_path (insert_nth i new) [] t) <> strip containers t).
 Proof.
   intros a Hin Hk. pose proof (proj1 (forallb_forall _ _) all_known_real a Hin) as H.
-  unfold known_real in H. rewrite Hk in H. simpl in H.
-  apply andb_true_iff in H as [H H4]. apply andb_true_iff in H as [H H3]. apply andb_true_iff in H as [H1 H2].
-  apply negb_true_iff in H4. repeat split; auto.
-  - destruct (acc_eff a); try discriminate. reflexivity.
-  - apply creates_visible; auto.
+  unfold known_real in H. apply orb_true_iff in H. destruct H as [H|H].
+  - rewrite Hk in H. discriminate.
+  - apply andb_true_iff in H as [H H4]. apply andb_true_iff in H as [H H3]. apply andb_true_iff in H as [H1 H2].
+    apply negb_true_iff in H4. split; [exact H4|]. split; [exact H3|].
+    intros new i t Hs. split.
+    + destruct (acc_eff a); try discriminate H3. reflexivity.
+    + apply creates_visible; auto.
 Qed.
